@@ -35,7 +35,7 @@ func CompileAllOf(rootSchema *ischema.ISchema) {
 	c.processSchema(rootSchema)
 
 	// In case allow is used only in types (not in the root schema).
-	for name := range rootSchema.TypesList() {
+	for _, name := range rootSchema.TypeNames() {
 		c.processType(name)
 	}
 
